@@ -1847,7 +1847,7 @@ protected:    // interface for the derived class
         // if the state machine is interrupted, do not handle any event
         // unless the event is the end interrupt event
         if ( is_flag_active< ::boost::msm::InterruptedFlag>() &&
-            !is_flag_active< ::boost::msm::EndInterruptFlag<Event> >())
+            !is_flag_active< ::boost::msm::EndInterruptFlag<typename std::decay<Event>::type> >())
             return true;
         return false;
     }
